@@ -44,7 +44,9 @@ RULE = ('RMCP: every ordering up to length 4 (thorough: 5, then 6 while time rem
         'un-bridged requests.  ipmb-dev and Aardvark: every ordering up to length 3 of {reply, stale, other '
         'cmd/netFn/LUN, bad checksums, idle poll, read error} x 4 timing patterns, random scripts (wrong length prefix, '
         'short frames), sessions in which is_ipmc_accessible probes are requests like the others (directed: request, '
-        'late reply, probe).  A case is distinct by (transport, configuration, state, requests, scripts); non-trivial = at '
+        'late reply, probe) and in which every fifth request / probe names a target with a routing of 1..4 hops '
+        '(directed: [request,] routed request or probe with the reply of the local owner of that address ready, then a '
+        'request whose reply arrives - a refused request must leave no trace).  A case is distinct by (transport, configuration, state, requests, scripts); non-trivial = at '
         'least one event.')
 ASSUMPTIONS = [
     'the step functions of the loop models (lean/PyIpmi/Model/RmcpLoop.lean: rmcpRequest/outer/inner/nextQ/nextSock/'
